@@ -939,23 +939,23 @@ def delayBacktrack {α : Type} (p : Parser α) (input : List Token) (first : Out
       | .crash w => .crash w
       | _ => delayBacktrack p input first k
 
+/-- the first attempt of `parse_delay` with all `k` qubits, then the back-tracking loop -/
+def delayAttempts {α : Type} (p : Parser α) (input : List Token) (k : Nat) : Outcome (α × Nat) :=
+  match sliceFrom input k with
+  | .crash w => .crash w
+  | _ =>
+    match p (input.drop k) with
+    | .ok v rest => .ok (v, k) rest
+    | .crash w => .crash w
+    | .err => delayBacktrack p input .err k
+    | .fail => delayBacktrack p input .fail k
+
 /-- `parse_delay` (command.rs:402): the qubits are read greedily (every qubit is one token), then given
 back one at a time until the rest parses as frame names and an expression. -/
 def parseDelay (pe : Parser PExpr) : Parser Instruction := fun input =>
   match many0 parseQubit input with
   | .ok qubits _ =>
-    let p := parseDelayFrameNamesAndDuration pe
-    let k := qubits.length
-    let result : Outcome ((List String × PExpr) × Nat) :=
-      match sliceFrom input k with
-      | .crash w => .crash w
-      | _ =>
-        match p (input.drop k) with
-        | .ok v rest => .ok (v, k) rest
-        | .crash w => .crash w
-        | .err => delayBacktrack p input .err k
-        | .fail => delayBacktrack p input .fail k
-    match result with
+    match delayAttempts (parseDelayFrameNamesAndDuration pe) input qubits.length with
     | .ok ((frameNames, duration), k') rest => .ok (.delay ⟨duration, frameNames, qubits.take k'⟩) rest
     | .err => .err | .fail => .fail | .crash w => .crash w
   | .err => .err | .fail => .fail | .crash w => .crash w
